@@ -19,6 +19,7 @@ const (
 	KBList  // list of Bytes (ADT helper)
 	KString // SMT-LIB strings (String domain)
 	KInt    // mathematical integers (only for str.len / from_int plumbing)
+	KRe     // regular languages over strings
 )
 
 type Sort struct {
@@ -32,6 +33,7 @@ var (
 	SBList  = Sort{K: KBList}
 	SString = Sort{K: KString}
 	SInt    = Sort{K: KInt}
+	SRe     = Sort{K: KRe}
 )
 
 func SBV(w int) Sort { return Sort{K: KBV, W: w} }
@@ -50,6 +52,8 @@ func (s Sort) SMT() string {
 		return "String"
 	case KInt:
 		return "Int"
+	case KRe:
+		return "RegLan"
 	}
 	panic("bad sort")
 }
@@ -252,6 +256,15 @@ func Eq(a, b *Term) *Term {
 	if a.IsConst() && b.IsConst() {
 		return BoolC(a.U == b.U && a.B == b.B && a.Str == b.Str)
 	}
+	if s, ok := lenOperand(a); ok && b.IsConst() {
+		if b.U == 0 {
+			return Eq(s, StrC(""))
+		}
+		return mk("=", SBool, mk("str.len", SInt, s), IntC(int64(b.U)))
+	}
+	if _, ok := lenOperand(b); ok && a.IsConst() {
+		return Eq(b, a)
+	}
 	if structEq(a, b, 12) {
 		return True
 	}
@@ -416,6 +429,20 @@ func BVCmp(op string, a, b *Term) *Term {
 		}
 		panic("BVCmp const: " + op)
 	}
+	// len(s) compared with a constant: stay in integer arithmetic
+	if s, ok := lenOperand(a); ok && b.IsConst() && int64(b.U) >= 0 {
+		l, c := mk("str.len", SInt, s), IntC(int64(b.U))
+		switch op {
+		case "bvult", "bvslt":
+			return mk("<", SBool, l, c)
+		case "bvule", "bvsle":
+			return mk("<=", SBool, l, c)
+		case "bvugt", "bvsgt":
+			return mk(">", SBool, l, c)
+		case "bvuge", "bvsge":
+			return mk(">=", SBool, l, c)
+		}
+	}
 	return mk(op, SBool, a, b)
 }
 
@@ -543,6 +570,9 @@ func (t *Term) constSMT() string {
 		}
 		return fmt.Sprintf("#b%0*b", t.S.W, t.U)
 	case KInt:
+		if t.Str != "" {
+			return t.Str
+		}
 		v := int64(t.U)
 		if v < 0 {
 			return fmt.Sprintf("(- %d)", -v)
